@@ -23,4 +23,24 @@ var props = map[string]*propDef{
 			{Name: "proto.VerifC14History", Quick: map[string]int{"maxops": 3}, Thorough: map[string]int{"maxops": 4}},
 		},
 	},
+	"C17": {
+		ID: "C17", Level: "model_checking", Rule: ruleDefault,
+		Assumptions: append([]string{
+			"the oracle is the harness' reference encoder (harness/proto/ref.go) written from DESIGN.md Appendix A with its own revision thresholds",
+			"OpenTelemetry span contexts are invalid (go.opentelemetry.io stubbed): the trace section is always the single byte 0",
+		}, baseAssumptions...),
+		Harnesses: []harnessDef{
+			{Name: "proto.VerifC17UVarInt"},
+			{Name: "proto.VerifC17Fixed", Quick: map[string]int{"maxstr": 2}, Thorough: map[string]int{"maxstr": 3}},
+			{Name: "proto.VerifC17Progress"},
+			{Name: "proto.VerifC17ClientHello", Quick: map[string]int{"maxstr": 1}, Thorough: map[string]int{"maxstr": 2}},
+			{Name: "proto.VerifC17ServerHello", Quick: map[string]int{"maxstr": 1}, Thorough: map[string]int{"maxstr": 2}},
+			{Name: "proto.VerifC17Profile"},
+			{Name: "proto.VerifC17Exception", Quick: map[string]int{"maxstr": 2}, Thorough: map[string]int{"maxstr": 3}},
+			{Name: "proto.VerifC17TableColumns", Quick: map[string]int{"maxstr": 2}, Thorough: map[string]int{"maxstr": 3}},
+			{Name: "proto.VerifC17ClientData", Quick: map[string]int{"maxstr": 2}, Thorough: map[string]int{"maxstr": 3}},
+			{Name: "proto.VerifC17BlockHeader"},
+			{Name: "proto.VerifC17Query", Quick: map[string]int{"maxstr": 1, "maxsettings": 1, "maxparams": 1, "nwide": 2, "maxkey": 0, "obsolete": 0}, Thorough: map[string]int{"maxstr": 2, "maxsettings": 2, "maxparams": 1, "nwide": 8, "maxkey": 0}},
+		},
+	},
 }
